@@ -511,6 +511,72 @@ pub fn run(scn: &Scn, ctx: &Ctx, scratch: &Path) {
                 }
             }
         }
+        // ... and the metadata flute's receiver hands to the application for each object is what the sender was given
+        for w in st.writers.iter() {
+            let objs: Vec<usize> = (0..trace.obj_toi.len()).filter(|i| trace.obj_toi[*i] == Some(w.toi)).collect();
+            if objs.len() != 1 || w.toi == 0 {
+                continue;
+            }
+            let o = &scn.sender.objects[objs[0]];
+            let want = expect_file(o, w.toi, &scn.sender.spec, 0);
+            let m = &w.meta;
+            let mut bad = |field: &str, class: &str, g: String, wnt: String| {
+                violate(
+                    ctx,
+                    &format!("C10/receiver-metadata-{}", field),
+                    class,
+                    format!("object TOI={}: flute's receiver reports {} {} but the sender was given {}", w.toi, field, g, wnt),
+                );
+            };
+            if m.content_location != want.location {
+                bad("location", "-", format!("{:?}", m.content_location), format!("{:?}", want.location));
+            }
+            if m.content_length.map(|v| v as u64) != want.content_length {
+                bad("content-length", "-", format!("{:?}", m.content_length), format!("{:?}", want.content_length));
+            }
+            if want.transfer_length.is_some() && m.transfer_length.map(|v| v as u64) != want.transfer_length {
+                bad("transfer-length", "-", format!("{:?}", m.transfer_length), format!("{:?}", want.transfer_length));
+            }
+            if m.content_type != want.ctype {
+                let ws = want.ctype.as_ref().map(|s| s.contains(['\t', '\n', '\r'])).unwrap_or(false);
+                bad("type", if ws { "literal-whitespace" } else { "-" }, format!("{:?}", m.content_type), format!("{:?}", want.ctype));
+            }
+            if m.md5 != want.md5 {
+                bad("md5", "-", format!("{:?}", m.md5), format!("{:?}", want.md5));
+            }
+            if m.e_tag != want.etag {
+                let ws = want.etag.as_ref().map(|s| s.contains(['\t', '\n', '\r'])).unwrap_or(false);
+                bad("etag", if ws { "literal-whitespace" } else { "-" }, format!("{:?}", m.e_tag), format!("{:?}", want.etag));
+            }
+            // the groups of the session apply to every object, the groups of the object come in addition
+            let mut want_groups = scn.sender.spec.groups.clone().unwrap_or_default();
+            want_groups.extend(want.groups.iter().cloned());
+            let got_groups = m.groups.clone().unwrap_or_default();
+            if got_groups != want_groups {
+                bad("groups", "-", format!("{:?}", got_groups), format!("{:?} (session groups, then the object's)", want_groups));
+            }
+            let got_cenc = match m.cenc {
+                None | Some(flute::core::lct::Cenc::Null) => None,
+                Some(flute::core::lct::Cenc::Zlib) => Some("zlib"),
+                Some(flute::core::lct::Cenc::Deflate) => Some("deflate"),
+                Some(flute::core::lct::Cenc::Gzip) => Some("gzip"),
+            };
+            if got_cenc.map(|s| s.to_string()) != want.encoding {
+                bad("encoding", "-", format!("{:?}", m.cenc), format!("{:?}", want.encoding));
+            }
+            use flute::receiver::writer::ObjectCacheControl as CC;
+            let cache_ok = match (&o.cache, &m.cache_control) {
+                (None, CC::ExpiresAtHint(_)) | (None, CC::NoCache) => true,
+                (Some(CacheSpec::NoCache), CC::NoCache) => true,
+                (Some(CacheSpec::MaxStale), CC::MaxStale) => true,
+                (Some(CacheSpec::ExpiresMs(_)), CC::ExpiresAt(_)) => true,
+                (Some(CacheSpec::ExpiresAtMs(ms)), CC::ExpiresAt(t)) => *t == std::time::UNIX_EPOCH + std::time::Duration::from_secs(ms / 1000),
+                _ => false,
+            };
+            if !cache_ok {
+                bad("cache-control", "-", format!("{:?}", m.cache_control), format!("{:?}", o.cache));
+            }
+        }
         drop(st);
         rr.drop_receiver();
     }
